@@ -325,6 +325,16 @@ fn generate(rng: &mut Rng) -> ConnScenario {
     if rng.chance(1, 3) {
         sc.client.script_gap_ns = 0;
     }
+    // a status service that takes its time while the client has already sent (pipelined) its ping: the legal
+    // script, the client waits for the answers before it hangs up
+    if intent == 1 && rng.chance(1, 4) {
+        let lat = *rng.pick(&[ms(5), ms(300), secs(3)]);
+        sc.services.status.default.lat_ns = Some(lat);
+        let mut script = legal.clone();
+        script.push(Step::WaitNs { ns: lat + secs(1) });
+        script.push(Step::Close { reset: false });
+        sc.client.script = Some(script);
+    }
     sc
 }
 
@@ -449,13 +459,28 @@ impl Check for C06 {
         generate(rng)
     }
     fn execute(&self, sc: &ConnScenario) -> RunReport {
+        let mut slow_status = false;
         if !conn_domain_ok(sc) || sc.client.script.is_none() || !sc.client.mutations.is_empty() || !transport_is_zero_time(sc) {
             return RunReport::default();
         }
         // latencies must be zero in this check
         let s = &sc.services;
-        if [s.status.default.lat_ns, s.auth.default.lat_ns, s.discovery.default.lat_ns, s.filter.default.lat_ns, s.strategy.default.lat_ns].iter().any(|l| *l != Some(0)) {
+        if [s.auth.default.lat_ns, s.discovery.default.lat_ns, s.filter.default.lat_ns, s.strategy.default.lat_ns].iter().any(|l| *l != Some(0)) {
             return RunReport::default();
+        }
+        // (the status service may be slow if the client waits for its answers before it hangs up)
+        match s.status.default.lat_ns {
+            Some(0) => {}
+            Some(lat) if lat <= secs(10) => {
+                let steps = sc.client.script.as_deref().unwrap_or(&[]);
+                let n = steps.len();
+                let waits = n >= 2 && matches!(steps[n - 1], Step::Close { reset: false }) && matches!(steps[n - 2], Step::WaitNs { ns } if ns >= lat + ms(1)) && steps[..n - 2].iter().all(|x| matches!(x, Step::Frame { .. }));
+                if !waits {
+                    return RunReport::default();
+                }
+                slow_status = true;
+            }
+            _ => return RunReport::default(),
         }
         let out = run_conn(sc);
         let mut rep = base_report(&out);
@@ -466,6 +491,9 @@ impl Check for C06 {
         let m = model(sc);
         rep.nontrivial = m.st == St::End && steps.len() > 1;
         *rep.faults.entry("out_of_order_or_hostile_script".into()).or_insert(0) += 1;
+        if slow_status {
+            *rep.faults.entry("status_service_slow_while_ping_is_pipelined".into()).or_insert(0) += 1;
+        }
         if steps.iter().any(|s| matches!(s, Step::Close { reset: true })) {
             *rep.faults.entry("client_reset".into()).or_insert(0) += 1;
         }
